@@ -119,8 +119,38 @@ class Ctx(object):
         }
 
 
+def _run_shard_pyopt(args):
+    """Run one shard in a child interpreter started with -O (assert statements stripped): results must not depend on
+    side effects hidden in asserts.  The child returns the ordinary shard result as JSON."""
+    import subprocess
+    prop, tier, seed, name, kwargs, budget = args
+    kw = {k: v for k, v in kwargs.items() if k != "_pyopt"}
+    code = ("import json,sys\nfrom vf import core\nargs=json.loads(sys.stdin.read())\n"
+            "r=core._run_shard(tuple(args))\nr['nontrivial']=sorted(r['nontrivial'])\nr['assertions_stripped']=not __debug__\nsys.stdout.write('\\nVFRESULT'+json.dumps(r))\n")
+    try:
+        p = subprocess.run([sys.executable, "-O", "-W", "ignore::DeprecationWarning", "-c", code], input=json.dumps([prop, tier, seed, name, kw, budget]).encode(),
+                           capture_output=True, timeout=(budget or 600) + 300, env=dict(os.environ))
+        out = p.stdout.decode()
+        r = json.loads(out[out.rindex("VFRESULT") + 8:])
+    except Exception as e:  # child failed: harness problem, not a verdict
+        ctx = Ctx(prop, tier, seed, name)
+        r = ctx.result()
+        r["crash"] = "python -O child failed: %r" % (e,)
+        return r
+    r["nontrivial"] = set(r["nontrivial"])
+    if not r.get("assertions_stripped"):
+        r["crash"] = "child did not run with -O"
+    r["classes"] = {"pyopt:" + k: v for k, v in r["classes"].items()}
+    r["nontrivial"] = {"pyopt:" + k for k in r["nontrivial"]}
+    for v in r["violations"]:
+        v["what"] = "[python -O] " + v["what"]
+    return r
+
+
 def _run_shard(args):
     prop, tier, seed, name, kwargs, budget = args
+    if kwargs.get("_pyopt"):
+        return _run_shard_pyopt(args)
     # the interpreter's default recursion limit is left alone: it is part of what a user of the library gets
     ctx = Ctx(prop, tier, seed, name)
     if budget:
